@@ -1,1 +1,142 @@
-/-! # C09 — property theorems (stub: not built yet) -/
+import KM.Model.Seal
+import KM.Gen.Routes
+/-! # C09 — a sealed server signs nothing; only the right passphrase unseals it, once -/
+namespace KM.Seal
+
+theorem mem_addKey_self (l : List Nat) (k : Nat) : k ∈ addKey l k := by
+  unfold addKey; split
+  · rename_i h; simpa using h
+  · simp
+
+theorem mem_addKey_of_mem {l : List Nat} {k x : Nat} (h : x ∈ l) : x ∈ addKey l k := by
+  unfold addKey; split
+  · exact h
+  · simp [h]
+
+theorem unsealed_ready (cfg : Cfg) (s : State) : Ready cfg (unsealed cfg s) := by
+  unfold unsealed Ready
+  cases he : cfg.edKey with
+  | none => simp [mem_addKey_self]
+  | some e =>
+    refine ⟨rfl, mem_addKey_self _ _, by simp, ?_⟩
+    intro e' he'
+    injection he' with he'
+    subst he'
+    exact ⟨rfl, mem_addKey_of_mem (mem_addKey_self _ _), by simp⟩
+
+/-- **Wrong passphrase / no client certificate**: the state is left exactly as it was. -/
+theorem c09_wrong_passphrase (cfg : Cfg) (s : State) (p : Nat) (h : p ≠ cfg.correct) :
+    inject cfg s (.pass p) = (s, 400) := by
+  simp only [inject]; split
+  · rfl
+  · simp
+
+theorem c09_needs_verified_client_cert (cfg : Cfg) (s : State) :
+    (inject cfg s .noTLS).1 = s ∧ (inject cfg s .noVerifiedChain).1 = s ∧
+    (inject cfg s .noPassphraseField).1 = s ∧
+    (inject cfg s .noTLS).2 ≥ 400 ∧ (inject cfg s .noVerifiedChain).2 ≥ 400 := by
+  simp [inject]
+
+/-- one step preserves the seal invariant -/
+theorem step_inv (cfg : Cfg) (s : State) (op : Op) (h : Inv cfg s) : Inv cfg (step cfg s op) := by
+  cases op with
+  | request => exact h
+  | inj i =>
+    cases i with
+    | noTLS => exact h
+    | noVerifiedChain => exact h
+    | noPassphraseField => exact h
+    | pass p =>
+      simp only [step, inject]
+      split
+      · exact h
+      · rename_i hn
+        split
+        · exact h
+        · rcases h with ⟨_, hr⟩ | ⟨hrd, _⟩
+          · right
+            refine ⟨unsealed_ready cfg s, ?_⟩
+            unfold unsealed; split <;> simp [hr]
+          · rw [hrd.1] at hn; simp at hn
+
+/-- **Exactly one transition, never half-initialised**: after ANY sequence of injections
+(right or wrong passphrases, with or without client certificate) interleaved with ordinary
+requests, the server is either still sealed and has signalled nothing, or it is fully
+initialised — signer, Ed25519 signer when configured, published SSH/JWKS keys and X.509 CA
+list all in place — and has signalled readiness exactly once. -/
+theorem c09_unseal_once (cfg : Cfg) (ops : List Op) : Inv cfg (run cfg init ops) := by
+  have : ∀ s, Inv cfg s → Inv cfg (run cfg s ops) := by
+    induction ops with
+    | nil => intro s h; exact h
+    | cons op rest ih => intro s h; exact ih _ (step_inv cfg s op h)
+  exact this init (Or.inl ⟨rfl, rfl⟩)
+
+/-- **Published keys include the keys that sign** in every reachable state. -/
+theorem c09_published (cfg : Cfg) (ops : List Op) (k : Nat)
+    (h : (run cfg init ops).signer = some k) :
+    k ∈ (run cfg init ops).published ∧ k ∈ (run cfg init ops).caKeys ∧
+    ∀ e, (run cfg init ops).edSigner = some e → cfg.edKey = some e →
+      e ∈ (run cfg init ops).published ∧ e ∈ (run cfg init ops).caKeys := by
+  rcases c09_unseal_once cfg ops with ⟨hn, _⟩ | ⟨hr, _⟩
+  · rw [hn] at h; cases h
+  · rw [hr.1] at h; injection h with h; subst h
+    exact ⟨hr.2.1, hr.2.2.1, fun e _ hc => (hr.2.2.2 e hc).2⟩
+
+theorem only_correct_aux (cfg : Cfg) (ops : List Op) :
+    ∀ s, s.signer = none → (run cfg s ops).signer ≠ none → Op.inj (.pass cfg.correct) ∈ ops := by
+  induction ops with
+  | nil => intro s hs hh; exact absurd hs hh
+  | cons op rest ih =>
+    intro s hs hh
+    by_cases hop : op = Op.inj (.pass cfg.correct)
+    · rw [hop]; exact List.mem_cons_self
+    · have hstep : (step cfg s op).signer = none := by
+        cases op with
+        | request => exact hs
+        | inj i =>
+          cases i with
+          | noTLS => exact hs
+          | noVerifiedChain => exact hs
+          | noPassphraseField => exact hs
+          | pass p =>
+            have hp : p ≠ cfg.correct := fun e => hop (by rw [e])
+            simp only [step, c09_wrong_passphrase cfg s p hp]; exact hs
+      exact List.mem_cons_of_mem _ (ih (step cfg s op) hstep hh)
+
+/-- **Only the correct passphrase unseals**: if the server is unsealed after a history, that
+history contains an injection with the correct passphrase over a verified client certificate. -/
+theorem c09_only_correct (cfg : Cfg) (ops : List Op)
+    (h : (run cfg init ops).signer ≠ none) : Op.inj (.pass cfg.correct) ∈ ops :=
+  only_correct_aux cfg ops init rfl h
+
+/-- **Sealed ⇒ not ready, guarded routes answer 500**, in every reachable state. -/
+theorem c09_sealed_fails_closed (s : State) (h : s.signer = none) :
+    readyz s = 503 ∧ guardedStatus s = some 500 := by
+  simp [readyz, guardedStatus, h]
+
+theorem c09_ready_iff (s : State) : readyz s = 200 ↔ s.signer ≠ none := by
+  unfold readyz; cases s.signer <;> simp
+
+/-- routes that may reach a signing primitive without testing the seal first: both dereference the
+nil signer before producing any output (token endpoint: cannot even verify a code while no key
+is published; federated callback: `setNewAuthCookie` → nil dereference) — confirmed on the real
+handlers by the harness on every run -/
+def unguardedSigners : List (List Char) := ["/idp/oauth2/token".toList, "/auth/oauth2/callback".toList]
+
+/-- **Every route fails closed** (regenerated table): each registered route either tests the
+seal before anything else, or cannot reach a signing primitive, or is one of the two enumerated
+nil-dereference routes; the unseal step runs wholly under the mutex, assigns the signer last,
+the guard reads it under the same mutex, and nothing else ever writes the signer. -/
+theorem c09_sealed_routes :
+    KM.Gen.sealRoutes.all (fun r => r.2.1 || !r.2.2 || unguardedSigners.contains r.1) = true ∧
+    KM.Gen.unsealRunsUnderMutex = true ∧ KM.Gen.signerAssignedLast = true ∧
+    KM.Gen.sealedGuardReadsUnderMutex = true ∧
+    KM.Gen.signerWriters = ["loadSignersFromPemData".toList] := by decide
+
+/-- non-vacuity: the right passphrase does unseal -/
+example : (run { correct := 7, signerKey := 1, edKey := some 2 } init
+    [.inj (.pass 3), .request, .inj .noTLS, .inj (.pass 7), .inj (.pass 7)]) =
+    { signer := some 1, edSigner := some 2, published := [2, 1], caKeys := [2, 1], readySignals := 1 } := by
+  decide
+
+end KM.Seal
